@@ -249,6 +249,17 @@ def _finalize(check: Check):
         ok = ff.param_of(v.args[0]) == ps[2] and ff.param_of(v.args[1]) == ps[3]
   check.ob('R-DIV', fi, 'safe_div(accum_loss, num_examples)', ok, 'a client without real examples gets average loss 0, not NaN')
   _reg_once(check, fi, ff, 'average loss')
+  # every way out of the public evaluator goes through the finalizer (which adds the regulariser and guards the division): an early
+  # return for "no examples" would drop the regulariser term
+  for owner in (repo.func(MODELS, 'evaluate_average_loss'),):
+    off = FuncFlow.of(repo, owner)
+    check.analysed(owner)
+    for _, rv in off.returns():
+      vals = off.expand(rv) if rv is not None else []
+      through = bool(vals) and all(isinstance(v, ast.Call) and wmean.repo_fn(off, v) == f'{MODELS}:_finalize_average_loss' for v in vals)
+      check.ob('R-REG.final', owner, 'return ' + (txt(rv)[:70] if rv is not None else ''), through,
+               'every result of evaluate_average_loss is produced by _finalize_average_loss(params, regularizer, accum_loss, num_examples)',
+               node=rv)
   dv = DivAnalysis(repo)
   for f2 in (fi, repo.func(MODELS, 'grad').nested('scalar_loss'), repo.func(MODELS, '_evaluate_average_loss_step')):
     for s in dv.sites(f2):
@@ -336,6 +347,15 @@ def _full_batch_gradient(check: Check):
                  f'to the count-weighted sum (e.g. a regulariser gradient) is divided by the number of examples instead of entering once',
                  node=c)
   check.floor('R-WMEAN.pair-sum', 'full-batch gradient sites', n, 2)
+  # the count of real examples over the cohort is zero when every client is empty: no raw division by it
+  dv = DivAnalysis(repo)
+  for modname in ('fedjax.algorithms.mime', 'fedjax.algorithms.mime_lite'):
+    for a in entries.find_algorithms(repo, [repo.module(modname)]):
+      for sdiv in dv.sites(a.apply):
+        if sdiv.cls == 'DATA':
+          check.ob('R-DIV', a.apply, txt(sdiv.node)[:80], sdiv.guard is not None,
+                   f'raw division by {txt(sdiv.denom)} ({sdiv.why}): 0/0 for a cohort without real examples; guard: {sdiv.guard}',
+                   node=sdiv.node, exact=True)
   # the per-client pair handed to that sum is the two accumulators as they are: a count that is clamped or defaulted (e.g. to >= 1)
   # makes a client without real examples weigh something
   from fjsa.rules import skeleton as sk
